@@ -67,18 +67,53 @@ type werrHash struct {
 
 func (w *werrHash) Write(p []byte) (int, error) { return 0, fmt.Errorf("e%d", w.e) }
 
+// recHash records the calls made on a custom hasher (the hasher protocol is part of what is compared)
+type recHash struct {
+	hash.Hash32
+	log []string // "R" | "W<bytes as decimal list>"
+}
+
+func (r *recHash) Reset() { r.log = append(r.log, "HReset"); r.Hash32.Reset() }
+func (r *recHash) Write(p []byte) (int, error) {
+	r.log = append(r.log, cf.App("HWrite", cf.Bytes(p)))
+	return r.Hash32.Write(p)
+}
+
+var lastRec *recHash // the most recently created custom hasher instance
+
 func mkHasher(h hasherSpec) func() hash.Hash32 {
+	var inner func() hash.Hash32
 	switch h.Kind {
 	case "fnv1a":
-		return fnv.New32a
+		inner = fnv.New32a
 	case "fnv1":
-		return fnv.New32
+		inner = fnv.New32
 	case "const":
-		return func() hash.Hash32 { return &constHash{h.Val} }
+		inner = func() hash.Hash32 { return &constHash{h.Val} }
 	case "werr":
-		return func() hash.Hash32 { return &werrHash{e: h.Err} }
+		inner = func() hash.Hash32 { return &werrHash{e: h.Err} }
+	default:
+		panic("hasher kind " + h.Kind)
 	}
-	panic("hasher kind " + h.Kind)
+	return func() hash.Hash32 {
+		lastRec = &recHash{Hash32: inner()}
+		return lastRec
+	}
+}
+
+// the top-level partitioner's own hasher is a custom (recordable) one
+func ownCustomHasher(s partSpec) bool {
+	if s.Kind == "customhash" {
+		return true
+	}
+	if s.Kind == "custom" {
+		for _, o := range s.Opts {
+			if o.Kind == "hashfn" {
+				return true
+			}
+		}
+	}
+	return false
 }
 func coqHasher(h hasherSpec) string {
 	switch h.Kind {
@@ -443,6 +478,8 @@ type call struct {
 	MPart int32   `json:"mpart"`
 	N     int32   `json:"n"`
 	Obs   string  `json:"obs"` // Coq term of type pout
+	HCalls []string `json:"hasher_calls,omitempty"` // calls seen on the partitioner's own custom hasher
+	hobs  bool
 	val   int32
 	kind  int // 0 chose 1 fail 2 panic 3 diverge
 }
@@ -514,7 +551,12 @@ func keylessServer(s partSpec) *partSpec {
 }
 
 func runCalls(s partSpec, calls []call) ([]call, *cf.Monitor) {
+	lastRec = nil
 	p, _ := build(s)
+	var rec *recHash
+	if ownCustomHasher(s) {
+		rec = lastRec
+	}
 	var mon *cf.Monitor
 	setMon := func(sig, what string) {
 		if mon == nil {
@@ -537,7 +579,22 @@ func runCalls(s partSpec, calls []call) ([]call, *cf.Monitor) {
 			setMon("c17:fallback-self-recursion", "WithCustomFallbackPartitioner ignored its argument (hp.random == hp): Partition() on a keyless message would recurse forever")
 			continue
 		}
+		before := 0
+		if rec != nil {
+			before = len(rec.log)
+		}
 		v, err, pan := callPartition(p, m, c.N)
+		if rec != nil {
+			c.hobs = true
+			c.HCalls = append([]string{}, rec.log[before:]...)
+			// monitor: every keyed message is hashed from a clean hasher: Reset, then Write of exactly its key bytes
+			if c.Key.Kind == "bytes" {
+				want := []string{"HReset", cf.App("HWrite", cf.Bytes(c.Key.Bytes))}
+				if len(c.HCalls) != 2 || c.HCalls[0] != want[0] || c.HCalls[1] != want[1] {
+					setMon("hash:hasher-protocol", fmt.Sprintf("key %v: calls on the hasher were %v, expected Reset then Write(key)", c.Key.Bytes, c.HCalls))
+				}
+			}
+		}
 		switch {
 		case pan:
 			c.Obs, c.kind = "Panic", 2
@@ -644,7 +701,11 @@ func genCalls(r *rand.Rand, s partSpec) []call {
 func coqCalls(cs []call) string {
 	var it []string
 	for _, c := range cs {
-		it = append(it, fmt.Sprintf("{| pc_key := %s; pc_mpart := %s; pc_n := %s; pc_obs := %s |}", coqKey(c.Key), cf.Z(int64(c.MPart)), cf.Z(int64(c.N)), c.Obs))
+		hc := "None"
+		if c.hobs {
+			hc = cf.Some(cf.List(c.HCalls))
+		}
+		it = append(it, fmt.Sprintf("{| pc_key := %s; pc_mpart := %s; pc_n := %s; pc_obs := %s; pc_hcalls := %s |}", coqKey(c.Key), cf.Z(int64(c.MPart)), cf.Z(int64(c.N)), c.Obs, hc))
 	}
 	return cf.List(it)
 }
